@@ -531,6 +531,20 @@ func parentMain(prop, tier string) int {
 				aggMu.Unlock()
 				start = crashed + workers
 				restarts++
+				if restarts-watchdogs >= 4 {
+					// four cases of this worker ended the process (deadlock,
+					// unbounded memory, fatal error): each is reported above;
+					// its remaining cases are not run, they would cost 10+ s
+					// apiece and the verdict is already "violated"
+					aggMu.Lock()
+					left := int64(0)
+					for i := start; i < n; i += workers {
+						left++
+					}
+					agg.Obs["cases_not_run_after_4_fatal_cases_of_one_worker"] += left
+					aggMu.Unlock()
+					return
+				}
 				if watchdogs >= 3 {
 					// three cases of this worker hit the wall-clock watchdog:
 					// give up on its remaining cases instead of spending
